@@ -10,7 +10,11 @@ import sys
 
 def replay_file(path: str):
     from simkit import sut
+    import os
 
+    with open(path) as f:
+        if json.load(f).get("engine") == "mpi":
+            os.environ["SIMKIT_FAKE_MPI"] = "1"
     sut.load()
     from simkit import meshlib, kernel
     from simkit.engines import get
